@@ -130,7 +130,7 @@ def run_shard(sh, ctx):
 		empty_i = subsets.index(frozenset())
 		for cname, cont in (('list', list(arrs[w0])), ('SignatureList', SignatureList(list(arrs[w0]), None, dtype=np.dtype(w0))), ('SignatureArray', SignatureArray(arrs[w0], None, dtype=np.dtype(w0))),
 		                    ('mixed-width list', list(mixed)), ('mixed-width SignatureList', SignatureList(list(mixed), None)),
-		                    ('one-reference SignatureArrays', None), ('chunks of two', None), ('pairwise, empty signatures last', None), ('pairwise on a list, empty signatures first', None)):
+		                    ('one-reference SignatureArrays', None), ('chunks of two', None), ('matrix into a Fortran-ordered out', None), ('rows into columns of a matrix', None), ('pairwise, empty signatures last', None), ('pairwise on a list, empty signatures first', None)):
 			Tb = np.empty((n, n), dtype='f8')
 			if cname == 'one-reference SignatureArrays':
 				# every reference alone in its own concatenated array (a database / chunk that holds a single genome)
@@ -138,6 +138,17 @@ def run_shard(sh, ctx):
 				for i in range(n):
 					for j in range(n):
 						Tb[i, j] = gm.jaccarddist_array(arrs[wl][i], singles[j])[0]
+			elif cname == 'matrix into a Fortran-ordered out':
+				# the caller's own result buffer, laid out column-major: the distances must arrive in it
+				Mx = np.full((n, n), np.nan, dtype='f4', order='F')
+				gm.jaccarddist_matrix(SignatureArray(arrs[wl], None, dtype=np.dtype(wl)), SignatureArray(arrs[w0], None, dtype=np.dtype(w0)), out=Mx, chunksize=5)
+				Tb[:] = Mx
+			elif cname == 'rows into columns of a matrix':
+				Mx = np.full((n, n), np.nan, dtype='f4')
+				sa = SignatureArray(arrs[w0], None, dtype=np.dtype(w0))
+				for i in range(n):
+					gm.jaccarddist_array(arrs[wl][i], sa, out=Mx[:, i])      # a strided view as out=
+				Tb[:] = Mx.T
 			elif cname == 'chunks of two':
 				# references ordered so that the empty set and its copy form a chunk of their own
 				order = [empty_i, empty_i] + [j for j in range(n) if j != empty_i]
